@@ -19,7 +19,7 @@ git apply "$D/patch.diff" || { echo "CONFIRM $D: PATCH DOES NOT APPLY"; git -C $
 $RUN >/tmp/mut/confirm_mut.log 2>&1; MUT=$?
 # suite with the mutation but without the demo
 git -C $W checkout -q -- .; git -C $W clean -fdq; git apply "$D/patch.diff"
-cargo test --offline -q -p $CRATE --no-fail-fast >/tmp/mut/confirm_suite.log 2>&1; SUITE=$?
+timeout 1200 cargo test --offline -q -p $CRATE --no-fail-fast -- --skip breakpoint_set_while_running_hits_on_subsequent_cycle >/tmp/mut/confirm_suite.log 2>&1; SUITE=$?
 FAILED=$(grep -E "^test .* FAILED$|^    [a-zA-Z_:0-9]+$" /tmp/mut/confirm_suite.log | sort -u | tr -s ' \n' ' ')
 git -C $W checkout -q -- .; git -C $W clean -fdq
 echo "CONFIRM $D: demo_on_clean_rc=$CLEAN demo_on_mutant_rc=$MUT suite_on_mutant_rc=$SUITE failed_tests=[$FAILED]"
